@@ -1,0 +1,263 @@
+//go:build verif
+
+package engine
+
+// Third part of the C13 facade: a whole EngineImpl (databases, partitions, retention policies,
+// shards with their indexes and WAL directories) for the store side of DROP MEASUREMENT /
+// DROP RETENTION POLICY / DROP DATABASE. Add-only, compiled only with -tags verif.
+//
+// VerifOpenDropEngine starts an engine the way ts-store does (NewEngine + Open with the shard
+// list of the catalogue); shards the catalogue lists are created with CreateShard. The drops
+// are the engine's own entry points (EngineImpl.DropMeasurement, DropRetentionPolicy,
+// DeleteDatabase), reads go through the shard facade of verif_export.go.
+
+import (
+	"fmt"
+	"math"
+	"runtime/debug"
+	"sort"
+	"sync"
+	"time"
+
+	"github.com/openGemini/openGemini/lib/config"
+	"github.com/openGemini/openGemini/lib/metaclient"
+	"github.com/openGemini/openGemini/lib/resourceallocator"
+	"github.com/openGemini/openGemini/lib/util/lifted/influx/meta"
+	"github.com/openGemini/openGemini/lib/util/lifted/vm/protoparser/influx"
+)
+
+// VerifEngineShard is one shard as the catalogue lists it.
+type VerifEngineShard struct {
+	DB, RP  string
+	ShardID uint64
+	IndexID uint64
+}
+
+const verifEnginePt = uint32(1)
+
+// VerifDropEngine is an engine opened by the harness.
+type VerifDropEngine struct {
+	eng    *EngineImpl
+	Dir    string
+	client *metaclient.Client
+}
+
+var verifLoadCtxOnce sync.Once
+var verifLoadCtx *metaclient.LoadCtx
+
+func verifGetLoadCtx() *metaclient.LoadCtx {
+	verifLoadCtxOnce.Do(func() {
+		verifLoadCtx = &metaclient.LoadCtx{LoadCh: make(chan *metaclient.DBPTCtx, 64)}
+		go func() {
+			for range verifLoadCtx.LoadCh {
+			}
+		}()
+	})
+	return verifLoadCtx
+}
+
+func verifShardTimes(s VerifEngineShard) *meta.ShardTimeRangeInfo {
+	tr := meta.TimeRangeInfo{StartTime: time.Unix(0, 0).UTC(), EndTime: time.Date(2099, 1, 1, 0, 0, 0, 0, time.UTC)}
+	return &meta.ShardTimeRangeInfo{
+		TimeRange:  tr,
+		OwnerIndex: meta.IndexDescriptor{IndexID: s.IndexID, IndexGroupID: s.IndexID, TimeRange: tr},
+		ShardDuration: &meta.ShardDurationInfo{
+			Ident:        meta.ShardIdentifier{ShardID: s.ShardID, ShardGroupID: s.ShardID, OwnerDb: s.DB, OwnerPt: verifEnginePt, Policy: s.RP, EngineType: uint32(config.TSSTORE)},
+			DurationInfo: meta.DurationDescriptor{Tier: 1, TierDuration: time.Hour, Duration: time.Hour},
+		},
+	}
+}
+
+// VerifOpenDropEngine opens an engine rooted at dir and loads the given shards from disk (a
+// start of the store: NewEngine + Open). Shards that are not on disk yet are added with
+// CreateShard by the caller.
+func VerifOpenDropEngine(dir string, shards []VerifEngineShard) (v *VerifDropEngine, err error) {
+	defer func() {
+		if r := recover(); r != nil {
+			err = fmt.Errorf("panic while opening the engine: %v\n%s", r, debug.Stack())
+		}
+	}()
+	o := verifEngineOptions()
+	o.OpenShardLimit = 8
+	e, err := NewEngine(dir, dir, o, verifGetLoadCtx())
+	if err != nil {
+		return nil, err
+	}
+	eng := e.(*EngineImpl)
+	verifLimitersOnce.Do(func() {
+		_ = resourceallocator.InitResAllocator(math.MaxInt64, 1, 1, resourceallocator.GradientDesc, resourceallocator.ChunkReaderRes, 0, 0)
+		_ = resourceallocator.InitResAllocator(math.MaxInt64, 1, 1, resourceallocator.GradientDesc, resourceallocator.ShardsParallelismRes, 0, 0)
+		_ = resourceallocator.InitResAllocator(math.MaxInt64, 1, 1, resourceallocator.GradientDesc, resourceallocator.SeriesParallelismRes, 0, 0)
+	})
+	// the catalogue as the store's meta client caches it: the databases and policies of the shards
+	data := &meta.Data{ClusterPtNum: 1}
+	durations := map[uint64]*meta.ShardDurationInfo{}
+	briefs := map[string]*meta.DatabaseBriefInfo{}
+	for _, s := range shards {
+		durations[s.ShardID] = verifShardTimes(s).ShardDuration
+		briefs[s.DB] = &meta.DatabaseBriefInfo{Name: s.DB}
+		if data.Database(s.DB) == nil {
+			if err = data.CreateDatabase(s.DB, meta.NewRetentionPolicyInfo(s.RP), nil, false, 1, nil); err != nil {
+				return nil, err
+			}
+		} else if _, e := data.RetentionPolicy(s.DB, s.RP); e != nil {
+			if err = data.CreateRetentionPolicy(s.DB, meta.NewRetentionPolicyInfo(s.RP), false); err != nil {
+				return nil, err
+			}
+		}
+	}
+	client := metaclient.NewClient("", false, 0)
+	client.SetCacheData(data)
+	if err = eng.Open(durations, briefs, client); err != nil {
+		return nil, err
+	}
+	return &VerifDropEngine{eng: eng, Dir: dir, client: client}, nil
+}
+
+// CreateShard is the store's handling of a shard the catalogue has just created.
+func (v *VerifDropEngine) CreateShard(s VerifEngineShard) (err error) {
+	defer func() {
+		if r := recover(); r != nil {
+			err = fmt.Errorf("panic in create shard: %v\n%s", r, debug.Stack())
+		}
+	}()
+	v.eng.createDBPTIfNotExist(s.DB, verifEnginePt, false)
+	return v.eng.CreateShard(s.DB, s.RP, verifEnginePt, s.ShardID, verifShardTimes(s), &meta.MeasurementInfo{EngineType: config.TSSTORE})
+}
+
+// Write is EngineImpl.WriteRows for one shard, then the index flush interval.
+func (v *VerifDropEngine) Write(s VerifEngineShard, rows []influx.Row) (err error) {
+	defer func() {
+		if r := recover(); r != nil {
+			err = fmt.Errorf("panic in write: %v\n%s", r, debug.Stack())
+		}
+	}()
+	for i := range rows {
+		sort.Sort(&rows[i].Tags)
+		sort.Sort(&rows[i].Fields)
+		rows[i].UnmarshalIndexKeys(nil)
+		rows[i].UnmarshalShardKeyByTag(nil)
+	}
+	buf, err := influx.FastMarshalMultiRows(nil, rows)
+	if err != nil {
+		return err
+	}
+	if err = v.eng.WriteRows(s.DB, s.RP, verifEnginePt, s.ShardID, rows, buf, nil); err != nil {
+		return err
+	}
+	if sh := v.Shard(s); sh != nil {
+		sh.FlushIndex()
+	}
+	return nil
+}
+
+// Flush flushes every shard (EngineImpl.ForceFlush) and waits.
+func (v *VerifDropEngine) Flush() {
+	v.eng.ForceFlush()
+	for _, sh := range v.shards() {
+		sh.waitSnapshot()
+	}
+}
+
+func (v *VerifDropEngine) shards() []*shard {
+	var out []*shard
+	v.eng.mu.RLock()
+	for _, pts := range v.eng.DBPartitions {
+		for _, pt := range pts {
+			pt.mu.RLock()
+			for _, sh := range pt.shards {
+				if s, ok := sh.(*shard); ok {
+					out = append(out, s)
+				}
+			}
+			pt.mu.RUnlock()
+		}
+	}
+	v.eng.mu.RUnlock()
+	return out
+}
+
+// Shard wraps a loaded shard for reading (nil if the engine does not hold it).
+func (v *VerifDropEngine) Shard(s VerifEngineShard) *VerifShard {
+	v.eng.mu.RLock()
+	defer v.eng.mu.RUnlock()
+	pts, ok := v.eng.DBPartitions[s.DB]
+	if !ok {
+		return nil
+	}
+	pt, ok := pts[verifEnginePt]
+	if !ok {
+		return nil
+	}
+	pt.mu.RLock()
+	defer pt.mu.RUnlock()
+	sh, ok := pt.shards[s.ShardID].(*shard)
+	if !ok || sh == nil {
+		return nil
+	}
+	return &VerifShard{sh: sh, ib: sh.indexBuilder, Dir: v.Dir}
+}
+
+// Loaded lists what the engine holds in memory: db/rp/shard and db/rp/index entries, sorted.
+func (v *VerifDropEngine) Loaded() []string {
+	var out []string
+	v.eng.mu.RLock()
+	for db, pts := range v.eng.DBPartitions {
+		for _, pt := range pts {
+			pt.mu.RLock()
+			for id, sh := range pt.shards {
+				out = append(out, fmt.Sprintf("shard %s/%s/%d", db, sh.GetRPName(), id))
+			}
+			for id, ib := range pt.indexBuilder {
+				out = append(out, fmt.Sprintf("index %s/%s/%d", db, ib.GetPrimaryIndex().(interface{ RpName() string }).RpName(), id))
+			}
+			for rp := range pt.delIndexBuilderMap {
+				out = append(out, fmt.Sprintf("delindex %s/%s", db, rp))
+			}
+			pt.mu.RUnlock()
+		}
+	}
+	v.eng.mu.RUnlock()
+	sort.Strings(out)
+	return out
+}
+
+// DropMeasurement is EngineImpl.DropMeasurement.
+func (v *VerifDropEngine) DropMeasurement(db, rp, name string, shardIds []uint64) (err error) {
+	defer func() {
+		if r := recover(); r != nil {
+			err = fmt.Errorf("panic in drop measurement: %v\n%s", r, debug.Stack())
+		}
+	}()
+	return v.eng.DropMeasurement(db, rp, name, shardIds)
+}
+
+// DropRetentionPolicy is EngineImpl.DropRetentionPolicy.
+func (v *VerifDropEngine) DropRetentionPolicy(db, rp string) (err error) {
+	defer func() {
+		if r := recover(); r != nil {
+			err = fmt.Errorf("panic in drop retention policy: %v\n%s", r, debug.Stack())
+		}
+	}()
+	return v.eng.DropRetentionPolicy(db, rp, verifEnginePt)
+}
+
+// DeleteDatabase is EngineImpl.DeleteDatabase.
+func (v *VerifDropEngine) DeleteDatabase(db string) (err error) {
+	defer func() {
+		if r := recover(); r != nil {
+			err = fmt.Errorf("panic in delete database: %v\n%s", r, debug.Stack())
+		}
+	}()
+	return v.eng.DeleteDatabase(db, verifEnginePt)
+}
+
+// Close is a clean shutdown of the engine.
+func (v *VerifDropEngine) Close() (err error) {
+	defer func() {
+		if r := recover(); r != nil {
+			err = fmt.Errorf("panic in close: %v\n%s", r, debug.Stack())
+		}
+	}()
+	return v.eng.Close()
+}
